@@ -432,6 +432,11 @@ func (t InclusiveRangeStaticType) Equal(other StaticType) bool {
 		return false
 	}
 
+	// The element type may be missing, e.g. for the base type of a parameterized type
+	if t.ElementType == nil || otherRangeType.ElementType == nil {
+		return t.ElementType == nil && otherRangeType.ElementType == nil
+	}
+
 	return t.ElementType.Equal(otherRangeType.ElementType)
 }
 
